@@ -64,6 +64,20 @@ macro_rules! tail {
         }
     };
 }
+#[kani::proof]
+#[kani::unwind(23)]
+#[kani::stub(std::backtrace::Backtrace::capture, crate::backtrace_stub)]
+#[kani::stub(alloc::fmt::format, crate::format_stub)]
+fn c14_urldecode_trunc_1() {
+    hu::c14_urldecode_trunc(false);
+}
+#[kani::proof]
+#[kani::unwind(23)]
+#[kani::stub(std::backtrace::Backtrace::capture, crate::backtrace_stub)]
+#[kani::stub(alloc::fmt::format, crate::format_stub)]
+fn c14_urldecode_trunc_2() {
+    hu::c14_urldecode_trunc(true);
+}
 tail!(c14_urldecode_tail_1, 1);
 tail!(c14_urldecode_tail_2, 2);
 tail!(c14_urldecode_tail_3, 3);
